@@ -592,15 +592,20 @@ func (r *runner) reinstate(st Step) {
 	act, pas := r.activeFolder(), r.passiveFolder()
 	var nRepl, nPas, bSeen int32
 	var label atomic.Value
+	nStores := int32(len(r.rawStoreList()))
+	isStoreKey := func(key string) bool { return strings.HasPrefix(key, pas+":") || strings.HasPrefix(key, act+":") }
 	classify := func(kind, key string) string {
 		switch {
 		case strings.Contains(key, "Rreplstat") && kind == "GetStructEx":
 			atomic.AddInt32(&nRepl, 1)
 			return ""
-		case kind == "GetStruct" && strings.HasPrefix(key, pas+":") && atomic.LoadInt32(&bSeen) == 0:
+		// CopyToPassiveFolders looks up one store info per listed store (in the passive folder's name space at
+		// the pinned commit, in the active one once that is repaired) ...
+		case kind == "GetStruct" && isStoreKey(key) && atomic.LoadInt32(&nPas) < nStores:
 			return fmt.Sprintf("C%d", atomic.AddInt32(&nPas, 1))
-		case (kind == "GetStruct" && strings.HasPrefix(key, act+":")) || kind == "DualLock":
-			if atomic.LoadInt32(&nRepl) == 1 && atomic.CompareAndSwapInt32(&bSeen, 0, 1) {
+		// ... everything after that belongs to fastForward
+		case (kind == "GetStruct" && isStoreKey(key)) || kind == "DualLock":
+			if atomic.CompareAndSwapInt32(&bSeen, 0, 1) {
 				return "B"
 			}
 		}
